@@ -971,6 +971,31 @@ func run(cfg *Config, opt core.Options, res *core.Result) *sim {
 	for slot := cfg.baseSlot() + 1; slot <= cfg.baseSlot()+uint64(cfg.Slots) && !s.stop; slot++ {
 		s.step = int(slot)
 		s.curSlot = slot
+		// the end of the chain is in sight (no active validator within the next three epochs): the run
+		// ends here, before any monitor that looks an epoch ahead stands on the edge
+		if ended := func() bool {
+			vals, err := w.head.post.st.Validators()
+			if err != nil {
+				return false
+			}
+			n, _ := vals.ValidatorCount()
+			for e := w.epochOf(slot); e <= w.epochOf(slot)+3; e++ {
+				active := false
+				for i := uint64(0); i < n && !active; i++ {
+					v, _ := vals.Validator(common.ValidatorIndex(i))
+					a, _ := v.ActivationEpoch()
+					x, _ := v.ExitEpoch()
+					active = uint64(a) <= e && e < uint64(x)
+				}
+				if !active {
+					return true
+				}
+			}
+			return false
+		}(); ended {
+			res.Stat("runs_ended_without_active_validators", 1)
+			break
+		}
 		res.Stat("events", 1)
 		res.SimTimeMs += int64(w.spec.SECONDS_PER_SLOT) * 1000
 		if cfg.has("deposits") && w.rng.Chance(1, 4) {
